@@ -36,12 +36,13 @@ def rulesOf (ps : List (Option Policy)) : List PathRule :=
 def permsFor (rules : List PathRule) (kind : Kind) (k : Path) : List Perms :=
   (rules.filter fun r => kindOf r == kind && r.path == k).map (·.perms)
 
-/-! ### well-formed stanzas: what `parsePaths` guarantees, plus the one thing it does not check -/
+/-! ### well-formed stanzas: what `parsePaths` guarantees -/
 
 def keysNodup (m : PMap) : Bool := decide (m.map (·.1)).Nodup
 
 /-- `deny` stands alone (parsePaths collapses the capability list), parameter maps are maps (distinct keys), and the
-wrapping-TTL bounds are not negative. The last item is NOT enforced by `parsePaths`; see `C03.order_independent_cex`. -/
+wrapping-TTL bounds are not negative. All three are established by `parsePaths` (`C03.parsed_stanza_wf`; the last two
+since the repairs of F21 and F19); hand-built `Policy` values need not satisfy them (`C03.order_independent_cex`). -/
 def wfPerms (p : Perms) : Bool :=
   (!isDeny p.caps || p.caps == denyBits) && keysNodup p.allowed && keysNodup p.denied &&
     decide (0 ≤ p.minTTL) && decide (0 ≤ p.maxTTL)
